@@ -11,7 +11,7 @@
 (* the predicted outcome and the number of touches per effect kind.        *)
 (*   env PLANS = ndjson: {id, sites: [{perm, kind}], assigns: "full"|...}   *)
 (***************************************************************************)
-EXTENDS XrRuntime, Json, IOUtils
+EXTENDS XrRuntime, Json, IOUtils, SequencesExt
 
 Plans == ndJsonDeserialize(IOEnv.PLANS)
 Kinds == {"write", "clock", "rng", "rng_new", "regex", "sleep"}
@@ -60,10 +60,26 @@ Done == pc > Len(Plans[pl].sites) \/ doomed # "none"
 PNext == Begin \/ Check \/ Touch \/ (pc >= 1 /\ Done /\ UNCHANGED pvars)
 PSpec == PInit /\ [][PNext]_pvars
 
+\* A permission set is configured by a history of allow / forbid calls; the setting of a permission is
+\* that of the LAST call naming it (its documented default if none does).  For every assignment the
+\* model also emits a history that first sets each configured permission the other way round.
+IdSeq == SetToSeq(PermIds)
+RECURSIVE HistoryFrom(_, _)
+HistoryFrom(a, i) ==
+    IF i > Len(IdSeq) THEN <<>>
+    ELSE LET q == IdSeq[i] IN
+         (IF a[q] = "unset" THEN <<>> ELSE <<[id |-> q, allow |-> a[q] # "allow"]>>) \o HistoryFrom(a, i + 1)
+History(a) == HistoryFrom(a, 1) \o
+              SelectSeq([i \in 1..Len(IdSeq) |-> [id |-> IdSeq[i], allow |-> a[IdSeq[i]] = "allow"]], LAMBDA o : a[o.id] # "unset")
+RECURSIVE LastFor(_, _, _)
+LastFor(ops, q, i) == IF i = 0 THEN "unset" ELSE IF ops[i].id = q THEN (IF ops[i].allow THEN "allow" ELSE "forbid") ELSE LastFor(ops, q, i - 1)
+FinalOf(ops) == [q \in PermIds |-> LastFor(ops, q, Len(ops))]
+HistoryMeansLastCall == phase # "Fresh" => FinalOf(History(perm)) = perm
+
 Emit ==
     (pc >= 1 /\ Done) =>
         PrintT(<<"CASE", ToJson([id |-> Plans[pl].id, perms |-> perm, outcome |-> doomed,
-                                 touched |-> touched])>>)
+                                 touched |-> touched, history |-> History(perm)])>>)
 
 \* the property on the model: nothing is ever touched under a permission that is not allowed,
 \* and a refused check is the violation naming that permission with nothing touched after it
